@@ -81,7 +81,7 @@ func TestVerifReplayC15(t *testing.T) {
 		doc = "tasks:\n  t1:\n    command: ['true']\n" + t2 + "contexts:\n  c1:\n    dir: /tmp\n" + c2 + "pipelines:\n" + p2 + "  p1:\n" +
 			stage(num("stage.p1.0.shape")) + stage(num("stage.p1.1.shape")) + "watchers:\n" + w
 	case "VerifC15EnvFile":
-		lines := []string{"A=1", "A", "A=1=2", "=", "", "=x", "# comment"}
+		lines := []string{"A=1", "A", "A=1=2", "=", "", "=x", "# comment", " ", "\t", "  # c", " A=1", "\t "}
 		os.WriteFile(filepath.Join(dir, "vars.env"), []byte(lines[sc.Args[0]]+"\n"+lines[sc.Args[1]]+"\n"), 0o644)
 		doc = "tasks:\n  t1:\n    command: ['true']\n    env_file: vars.env\n"
 	}
